@@ -3,6 +3,8 @@ use core::ops::Sub;
 
 use indexmap::IndexSet;
 use itertools::zip_eq;
+#[cfg(cairo_verif)]
+use crate::verif_hash::hashbrown_shadow as hashbrown;
 
 // hashbrown's default hasher (foldhash) rather than std's SipHash. IndexMap/IndexSet iterate in
 // insertion order, so the iteration order -- and thus compilation determinism -- is independent of
